@@ -167,12 +167,12 @@ Fixpoint nodup_b (l : list bytes) : bool :=
   | a :: r => negb (existsb (bytes_eqb a) r) && nodup_b r
   end.
 
-(* a Go map: distinct names; names are 7-bit, not empty, and stay distinct when lower-cased *)
+(* a Go map: distinct names; names are 7-bit (possibly empty) and stay distinct when lower-cased *)
 Definition wf_params (p : params) : bool :=
   match p with
   | None => true
   | Some l =>
-      forallb (fun kv => negb (is_nil (fst kv)) && seven (fst kv) && fits (fst kv) && fits (hide_words (snd kv))) l &&
+      forallb (fun kv => seven (fst kv) && fits (fst kv) && fits (hide_words (snd kv))) l &&
       nodup_b (map fst l) && nodup_b (map fst (lower_keys l))
   end.
 
@@ -194,6 +194,13 @@ Definition wf_mpx (e : mp_ext) : bool :=
 
 Definition norm_encoding (enc : bytes) : bytes := if is_nil enc then s2b "7BIT" else ascii_upper enc.
 
+(* a text part always travels with a line count: an unset Text is delivered as zero lines *)
+Definition norm_text (typ : bytes) (msg : option (option envelope * bstruct * Z)) (text : option Z) : option Z :=
+  match msg, text with
+  | None, None => if is_text_type typ then Some 0%Z else None
+  | _, _ => text
+  end.
+
 (* extended = BODYSTRUCTURE (extension data written and read), otherwise BODY *)
 Fixpoint norm_bs (extended : bool) (b : bstruct) : bstruct :=
   match b with
@@ -203,7 +210,7 @@ Fixpoint norm_bs (extended : bool) (b : bstruct) : bstruct :=
          | Some (e, b', lines) => Some (Some (norm_env e), norm_bs extended b', lines)
          | None => None
          end)
-        text
+        (norm_text typ msg text)
         (if extended then option_map norm_spx ext else None)
   | BMulti children subtyp ext =>
       BMulti (map (norm_bs extended) children) subtyp (if extended then option_map norm_mpx ext else None)
@@ -231,8 +238,7 @@ Fixpoint wf_bs (x : ext) (extended : bool) (b : bstruct) : bool :=
       (match text with Some lines => is_text_type typ && i64 lines | None => true end) &&
       (if extended then
          (match ext with Some e => wf_spx e | None => false end) &&
-         (negb (is_message_type typ subtyp) || (match msg with Some _ => true | None => false end)) &&
-         (negb (is_text_type typ) || (match text with Some _ => true | None => false end))
+         (negb (is_message_type typ subtyp) || (match msg with Some _ => true | None => false end))
        else true)
   | BMulti children subtyp ext =>
       negb (lnil children) && forallb (wf_bs x extended) children && fits subtyp &&
